@@ -245,6 +245,7 @@ def _run(rep, tier, seed, quick, rng, binary, jobs, futs):
                         observed=results.get(mid["n"], {}).get("steps")))
     # self-tests of the binding: a wrong expectation / a call the spec obliges to return must be rejected
     done_a = done_b = False
+    tries_a = tries_b = 0          # a corrupted candidate may still be explainable (another allowed branch): try a few
     for it in items:
         r = results.get(it["n"], {})
         if not r.get("ok") or "truncated" in r or r.get("inconclusive"):
@@ -260,9 +261,11 @@ def _run(rep, tier, seed, quick, rng, binary, jobs, futs):
                             o["res"][i] = "v:never-sent"
                     rc, o, err = harness.run(binary, ["sched"], [bad], timeout=60)
                     got = [x for x in o if "begin" not in x]
-                    rep.self_test("replayer rejects a received value the spec does not allow", bool(got) and not got[0].get("ok")
-                                  and got[0].get("key", "").endswith("/result"), str(got)[:300])
-                    done_a = True
+                    oka = bool(got) and not got[0].get("ok") and got[0].get("key", "").endswith("/result")
+                    tries_a += 1
+                    if oka or tries_a >= 8:
+                        rep.self_test("replayer rejects a received value the spec does not allow", oka, str(got)[:300])
+                        done_a = True
                 if not done_b and v == "blocked" and all(o["res"].get(i) == "blocked" for o in st["allowed"]):
                     bad = copy.deepcopy(it)
                     bad["beh"] = bad["beh"][:k + 1]
@@ -270,9 +273,11 @@ def _run(rep, tier, seed, quick, rng, binary, jobs, futs):
                         o["res"][i] = "ok"
                     rc, o, err = harness.run(binary, ["sched"], [bad], timeout=60)
                     got = [x for x in o if "begin" not in x]
-                    rep.self_test("replayer rejects a call left blocked although the spec obliges it to return", bool(got) and not got[0].get("ok")
-                                  and got[0].get("key", "").endswith("blocked-when-enabled"), str(got)[:300])
-                    done_b = True
+                    okb = bool(got) and not got[0].get("ok") and got[0].get("key", "").endswith("blocked-when-enabled")
+                    tries_b += 1
+                    if okb or tries_b >= 8:
+                        rep.self_test("replayer rejects a call left blocked although the spec obliges it to return", okb, str(got)[:300])
+                        done_b = True
         if done_a and done_b:
             break
     if not (done_a and done_b):
